@@ -384,7 +384,7 @@ result_t DateTimeDataType::readSymbols(size_t offset, size_t length, const Symbo
           } else if (symbol > 99) {
             return RESULT_ERR_OUT_OF_RANGE;  // invalid year
           } else {
-            *output << (2000 + symbol);
+            *output << dec << (2000 + symbol);
           }
         } else if (symbol < 1 || (i == 0 && symbol > 31) || (i == 1 && symbol > 12)) {
           return RESULT_ERR_OUT_OF_RANGE;  // invalid date
